@@ -2,7 +2,7 @@
 
 package main
 
-// C09 engine, part 2: repository histories, abstract state extraction, complete prune runs with
+// C11 engine, part 2: repository histories, abstract state extraction, complete prune runs with
 // plan + trace, and crash-at-every-prefix runs with direct observation.
 
 import (
@@ -28,55 +28,56 @@ import (
 	"github.com/restic/restic/internal/ui/progress"
 )
 
-var c09T = map[string]float64{}
+var c11T = map[string]float64{}
 
-type c09Snap struct {
+type c11Snap struct {
 	id    string
 	src   string
 	kept  bool
 	needs []restic.BlobHandle
 }
 
-type c09H struct {
+type c11H struct {
 	c      *vctx
 	e      *venv
 	rng    *vrng
 	name   string
 	root   string
-	snaps  []*c09Snap
+	snaps  []*c11Snap
 	packNo map[restic.ID]int
 	idxNo  map[restic.ID]int
 	hNo    map[restic.BlobHandle]int
 	nfile  int
+	lastSrc string
 }
 
-type c09Abs struct {
+type c11Abs struct {
 	packs    map[int][]int    // pack -> handles really contained
 	idxs     map[int][][2]int // index -> (pack, handle)
 	badPacks int
 }
 
-func c09NewH(c *vctx, name string, rng *vrng) *c09H {
-	h := &c09H{c: c, e: newVenv(c, name), rng: rng, name: name, root: filepath.Join(c.dir, name),
+func c11NewH(c *vctx, name string, rng *vrng) *c11H {
+	h := &c11H{c: c, e: newVenv(c, name), rng: rng, name: name, root: filepath.Join(c.dir, name),
 		packNo: map[restic.ID]int{}, idxNo: map[restic.ID]int{}, hNo: map[restic.BlobHandle]int{}}
 	return h
 }
 
-func (h *c09H) pn(id restic.ID) int {
+func (h *c11H) pn(id restic.ID) int {
 	if n, ok := h.packNo[id]; ok {
 		return n
 	}
 	h.packNo[id] = len(h.packNo) + 1
 	return h.packNo[id]
 }
-func (h *c09H) in(id restic.ID) int {
+func (h *c11H) in(id restic.ID) int {
 	if n, ok := h.idxNo[id]; ok {
 		return n
 	}
 	h.idxNo[id] = len(h.idxNo) + 1
 	return h.idxNo[id]
 }
-func (h *c09H) hn(bh restic.BlobHandle) int {
+func (h *c11H) hn(bh restic.BlobHandle) int {
 	if n, ok := h.hNo[bh]; ok {
 		return n
 	}
@@ -86,7 +87,7 @@ func (h *c09H) hn(bh restic.BlobHandle) int {
 
 // ---- source trees ----
 
-func (h *c09H) fileData(kind int) []byte {
+func (h *c11H) fileData(kind int) []byte {
 	sizes := []int{0, 1, 100, 4096, 30000, 70000, 200000, 700000}
 	n := sizes[h.rng.intn(len(sizes))]
 	if n > 100000 && h.rng.chance(60) {
@@ -100,7 +101,7 @@ func (h *c09H) fileData(kind int) []byte {
 }
 
 // mkTree creates dir with files; when prev != "" most files are copied from prev.
-func (h *c09H) mkTree(dir, prev string) error {
+func (h *c11H) mkTree(dir, prev string) error {
 	if err := os.MkdirAll(filepath.Join(dir, "sub", "deep"), 0o755); err != nil {
 		return err
 	}
@@ -134,7 +135,7 @@ func (h *c09H) mkTree(dir, prev string) error {
 	return nil
 }
 
-func c09ListDir(dir string) map[string]bool {
+func c11ListDir(dir string) map[string]bool {
 	out := map[string]bool{}
 	ents, _ := os.ReadDir(dir)
 	for _, e := range ents {
@@ -143,15 +144,15 @@ func c09ListDir(dir string) map[string]bool {
 	return out
 }
 
-func (h *c09H) idxFiles() map[string]bool { return c09ListDir(filepath.Join(h.e.repo, "index")) }
+func (h *c11H) idxFiles() map[string]bool { return c11ListDir(filepath.Join(h.e.repo, "index")) }
 
-func (h *c09H) clearLocks() {
+func (h *c11H) clearLocks() {
 	_ = os.RemoveAll(filepath.Join(h.e.repo, "locks"))
 	_ = os.MkdirAll(filepath.Join(h.e.repo, "locks"), 0o700)
 }
 
 // backup makes a snapshot of a fresh source tree derived from prev.
-func (h *c09H) backup(prev string, extra ...string) (*c09Snap, error) {
+func (h *c11H) backup(prev string, extra ...string) (*c11Snap, error) {
 	src := filepath.Join(h.root, fmt.Sprintf("src%d", len(h.snaps)))
 	if err := h.mkTree(src, prev); err != nil {
 		return nil, err
@@ -160,7 +161,7 @@ func (h *c09H) backup(prev string, extra ...string) (*c09Snap, error) {
 }
 
 // backupFiles makes a snapshot of a directory holding exactly the given files.
-func (h *c09H) backupFiles(files map[string][]byte) (*c09Snap, error) {
+func (h *c11H) backupFiles(files map[string][]byte) (*c11Snap, error) {
 	src := filepath.Join(h.root, fmt.Sprintf("src%d", len(h.snaps)))
 	if err := os.MkdirAll(src, 0o755); err != nil {
 		return nil, err
@@ -173,14 +174,14 @@ func (h *c09H) backupFiles(files map[string][]byte) (*c09Snap, error) {
 	return h.backupDir(src)
 }
 
-func (h *c09H) backupDir(src string, extra ...string) (*c09Snap, error) {
-	before := c09ListDir(filepath.Join(h.e.repo, "snapshots"))
+func (h *c11H) backupDir(src string, extra ...string) (*c11Snap, error) {
+	before := c11ListDir(filepath.Join(h.e.repo, "snapshots"))
 	args := append([]string{"backup", "--quiet"}, extra...)
 	if _, serr, err := h.e.cli(append(args, src)...); err != nil {
 		return nil, fmt.Errorf("backup: %v %s", err, serr)
 	}
-	sn := &c09Snap{src: src, kept: true}
-	for n := range c09ListDir(filepath.Join(h.e.repo, "snapshots")) {
+	sn := &c11Snap{src: src, kept: true}
+	for n := range c11ListDir(filepath.Join(h.e.repo, "snapshots")) {
 		if !before[n] {
 			sn.id = n
 		}
@@ -196,7 +197,7 @@ func (h *c09H) backupDir(src string, extra ...string) (*c09Snap, error) {
 }
 
 // computeNeeds walks the snapshot's tree with the harness's own walker.
-func (h *c09H) computeNeeds(sn *c09Snap) error {
+func (h *c11H) computeNeeds(sn *c11Snap) error {
 	_, _, err := h.e.run(func(ctx context.Context, gopts global.Options) error {
 		repo, err := h.e.openRepo(ctx)
 		if err != nil {
@@ -251,7 +252,7 @@ func (h *c09H) computeNeeds(sn *c09Snap) error {
 	return err
 }
 
-func (h *c09H) used() []int {
+func (h *c11H) used() []int {
 	set := map[int]bool{}
 	for _, s := range h.snaps {
 		if s.kept {
@@ -268,7 +269,7 @@ func (h *c09H) used() []int {
 	return out
 }
 
-func (h *c09H) forget(sn *c09Snap) error {
+func (h *c11H) forget(sn *c11Snap) error {
 	if _, serr, err := h.e.cli("forget", "--quiet", sn.id); err != nil {
 		return fmt.Errorf("forget: %v %s", err, serr)
 	}
@@ -278,8 +279,8 @@ func (h *c09H) forget(sn *c09Snap) error {
 
 // ---- abstract state ----
 
-func (h *c09H) state() (*c09Abs, error) {
-	abs := &c09Abs{packs: map[int][]int{}, idxs: map[int][][2]int{}}
+func (h *c11H) state() (*c11Abs, error) {
+	abs := &c11Abs{packs: map[int][]int{}, idxs: map[int][][2]int{}}
 	_, _, err := h.e.run(func(ctx context.Context, gopts global.Options) error {
 		repo, err := h.e.openRepo(ctx)
 		if err != nil {
@@ -297,7 +298,7 @@ func (h *c09H) state() (*c09Abs, error) {
 			return err
 		}
 		for _, p := range pfs {
-			blobs, err := repository.VerifC09ListPack(ctx, repo, p.id, p.size)
+			blobs, err := repository.VerifC11ListPack(ctx, repo, p.id, p.size)
 			if err != nil {
 				abs.badPacks++
 				abs.packs[h.pn(p.id)] = nil
@@ -326,7 +327,7 @@ func (h *c09H) state() (*c09Abs, error) {
 	return abs, err
 }
 
-func c09Ns(l []int) string {
+func c11Ns(l []int) string {
 	s := make([]string, len(l))
 	for i, x := range l {
 		s[i] = coqN(uint64(x))
@@ -334,7 +335,7 @@ func c09Ns(l []int) string {
 	return coqList(s)
 }
 
-func c09Pairs(l [][2]int) string {
+func c11Pairs(l [][2]int) string {
 	s := make([]string, len(l))
 	for i, x := range l {
 		s[i] = coqTuple(coqN(uint64(x[0])), coqN(uint64(x[1])))
@@ -342,7 +343,7 @@ func c09Pairs(l [][2]int) string {
 	return coqList(s)
 }
 
-func (a *c09Abs) term() string {
+func (a *c11Abs) term() string {
 	var pk, ik []int
 	for k := range a.packs {
 		pk = append(pk, k)
@@ -354,18 +355,18 @@ func (a *c09Abs) term() string {
 	sort.Ints(ik)
 	ps := make([]string, len(pk))
 	for i, k := range pk {
-		ps[i] = coqTuple(coqN(uint64(k)), c09Ns(a.packs[k]))
+		ps[i] = coqTuple(coqN(uint64(k)), c11Ns(a.packs[k]))
 	}
 	is := make([]string, len(ik))
 	for i, k := range ik {
-		is[i] = coqTuple(coqN(uint64(k)), c09Pairs(a.idxs[k]))
+		is[i] = coqTuple(coqN(uint64(k)), c11Pairs(a.idxs[k]))
 	}
 	return fmt.Sprintf("(mkR %s %s)", coqList(ps), coqList(is))
 }
 
 // ---- prune options ----
 
-type c09Opt struct {
+type c11Opt struct {
 	maxUnused    string
 	maxRepack    string
 	cacheable    bool
@@ -373,7 +374,7 @@ type c09Opt struct {
 	small        string
 }
 
-func (o c09Opt) flags() []string {
+func (o c11Opt) flags() []string {
 	f := []string{"--max-unused", o.maxUnused}
 	if o.maxRepack != "" {
 		f = append(f, "--max-repack-size", o.maxRepack)
@@ -389,10 +390,10 @@ func (o c09Opt) flags() []string {
 	}
 	return f
 }
-func (o c09Opt) String() string { return strings.Join(o.flags(), " ") }
+func (o c11Opt) String() string { return strings.Join(o.flags(), " ") }
 
-func c09PickOpt(rng *vrng, i int) c09Opt {
-	grid := []c09Opt{
+func c11PickOpt(rng *vrng, i int) c11Opt {
+	grid := []c11Opt{
 		{maxUnused: "0"},
 		{maxUnused: "5%"},
 		{maxUnused: "unlimited"},
@@ -408,14 +409,14 @@ func c09PickOpt(rng *vrng, i int) c09Opt {
 	return grid[rng.intn(len(grid))]
 }
 
-type c09Plan struct {
+type c11Plan struct {
 	removeFirst, repack, remove, ignore []int
 	keep                                []int
 	stats                               repository.PruneStats
 }
 
 // pruneDirect does what runPrune does, keeping the plan.
-func (h *c09H) pruneDirect(o c09Opt) (pl *c09Plan, planErr, execErr error) {
+func (h *c11H) pruneDirect(o c11Opt) (pl *c11Plan, planErr, execErr error) {
 	opts := PruneOptions{MaxUnused: o.maxUnused, MaxRepackSize: o.maxRepack, RepackCacheableOnly: o.cacheable, RepackUncompressed: o.uncompressed, SmallPackSize: o.small}
 	_, _, _ = h.e.run(func(ctx context.Context, gopts global.Options) error {
 		if err := verifyPruneOptions(&opts); err != nil {
@@ -444,8 +445,8 @@ func (h *c09H) pruneDirect(o c09Opt) (pl *c09Plan, planErr, execErr error) {
 			planErr = err
 			return err
 		}
-		rf, rp, rm, ig, keep, _ := repository.VerifC09PlanSets(plan)
-		pl = &c09Plan{stats: plan.Stats()}
+		rf, rp, rm, ig, keep, _ := repository.VerifC11PlanSets(plan)
+		pl = &c11Plan{stats: plan.Stats()}
 		for _, id := range rf {
 			pl.removeFirst = append(pl.removeFirst, h.pn(id))
 		}
@@ -473,7 +474,7 @@ func (h *c09H) pruneDirect(o c09Opt) (pl *c09Plan, planErr, execErr error) {
 }
 
 // trace decodes the recorded successful modifying ops into model ops.
-func (h *c09H) trace(mods []vop) (ops []string, obs []int, err error) {
+func (h *c11H) trace(mods []vop) (ops []string, obs []int, err error) {
 	_, _, err = h.e.run(func(ctx context.Context, gopts global.Options) error {
 		repo, err := h.e.openRepo(ctx)
 		if err != nil {
@@ -491,10 +492,10 @@ func (h *c09H) trace(mods []vop) (ops []string, obs []int, err error) {
 				for _, b := range blobs {
 					l = append(l, h.hn(b.BlobHandle))
 				}
-				ops = append(ops, fmt.Sprintf("SaveP %s %s", coqN(uint64(h.pn(id))), c09Ns(l)))
+				ops = append(ops, fmt.Sprintf("SaveP %s %s", coqN(uint64(h.pn(id))), c11Ns(l)))
 			case m.Op == "Save" && m.Type == backend.IndexFile:
 				id, _ := restic.ParseID(m.Name)
-				plain, err := repository.VerifC09DecodeUnpacked(repo, m.Data)
+				plain, err := repository.VerifC11DecodeUnpacked(repo, m.Data)
 				if err != nil {
 					return fmt.Errorf("decode saved index: %v", err)
 				}
@@ -508,7 +509,7 @@ func (h *c09H) trace(mods []vop) (ops []string, obs []int, err error) {
 						l = append(l, [2]int{h.pn(pbs.PackID), h.hn(b.BlobHandle)})
 					}
 				}
-				ops = append(ops, fmt.Sprintf("SaveI %s %s", coqN(uint64(h.in(id))), c09Pairs(l)))
+				ops = append(ops, fmt.Sprintf("SaveI %s %s", coqN(uint64(h.in(id))), c11Pairs(l)))
 			case m.Op == "Remove" && m.Type == backend.PackFile:
 				id, _ := restic.ParseID(m.Name)
 				ops = append(ops, "RmP "+coqN(uint64(h.pn(id))))
@@ -527,7 +528,7 @@ func (h *c09H) trace(mods []vop) (ops []string, obs []int, err error) {
 
 // ---- direct observation ----
 
-func c09Copy(src, dst string) error {
+func c11Copy(src, dst string) error {
 	_ = os.RemoveAll(dst)
 	return filepath.Walk(src, func(p string, fi os.FileInfo, err error) error {
 		if err != nil {
@@ -555,9 +556,9 @@ func c09Copy(src, dst string) error {
 	})
 }
 
-// c09Sync makes dst equal to src assuming files with the same name have the same content
+// c11Sync makes dst equal to src assuming files with the same name have the same content
 // (repository files are content-addressed; config/keys never change here).
-func c09Sync(src, dst string) error {
+func c11Sync(src, dst string) error {
 	want := map[string]bool{}
 	err := filepath.Walk(src, func(p string, fi os.FileInfo, err error) error {
 		if err != nil {
@@ -605,7 +606,7 @@ func c09Sync(src, dst string) error {
 	return nil
 }
 
-func c09TreeDigest(dir string) (map[string]string, error) {
+func c11TreeDigest(dir string) (map[string]string, error) {
 	out := map[string]string{}
 	err := filepath.Walk(dir, func(p string, fi os.FileInfo, err error) error {
 		if err != nil {
@@ -626,12 +627,12 @@ func c09TreeDigest(dir string) (map[string]string, error) {
 	return out, err
 }
 
-func (h *c09H) checkOK() bool {
+func (h *c11H) checkOK() bool {
 	_, _, err := h.e.cli("check", "--read-data", "--no-lock")
 	return err == nil
 }
 
-func (h *c09H) restoreOK() bool {
+func (h *c11H) restoreOK() bool {
 	for _, s := range h.snaps {
 		if !s.kept {
 			continue
@@ -641,8 +642,8 @@ func (h *c09H) restoreOK() bool {
 		if _, _, err := h.e.cli("restore", "--no-lock", "--quiet", s.id, "--target", tgt); err != nil {
 			return false
 		}
-		want, err1 := c09TreeDigest(s.src)
-		got, err2 := c09TreeDigest(filepath.Join(tgt, s.src))
+		want, err1 := c11TreeDigest(s.src)
+		got, err2 := c11TreeDigest(filepath.Join(tgt, s.src))
 		_ = os.RemoveAll(tgt)
 		if err1 != nil || err2 != nil || len(want) != len(got) {
 			return false
@@ -658,11 +659,11 @@ func (h *c09H) restoreOK() bool {
 
 // runScenario: complete prune (plan + trace) on the current repository state, then a crash at every
 // prefix, each followed by direct observation and a re-run.
-func (h *c09H) runScenario(kind string, o c09Opt, maxPrefixes int) error {
+func (h *c11H) runScenario(kind string, o c11Opt, maxPrefixes int) error {
 	c := h.c
 	h.clearLocks()
 	s0 := filepath.Join(h.root, "state0")
-	if err := c09Copy(h.e.repo, s0); err != nil {
+	if err := c11Copy(h.e.repo, s0); err != nil {
 		return err
 	}
 	abs0, err := h.state()
@@ -687,25 +688,25 @@ func (h *c09H) runScenario(kind string, o c09Opt, maxPrefixes int) error {
 	if pl != nil {
 		rm := append(append([]int{}, pl.remove...), pl.repack...)
 		excl := append(append([]int{}, rm...), pl.ignore...)
-		plTerm = fmt.Sprintf("(mkPl %s %s %s %s %s)", c09Ns(pl.removeFirst), c09Ns(rm), c09Ns(excl), c09Ns(pl.keep), c09Ns(obs))
+		plTerm = fmt.Sprintf("(mkPl %s %s %s %s %s)", c11Ns(pl.removeFirst), c11Ns(rm), c11Ns(excl), c11Ns(pl.keep), c11Ns(obs))
 		human += fmt.Sprintf(" plan: first=%d repack=%d remove=%d ignore=%d keep=%d", len(pl.removeFirst), len(pl.repack), len(pl.remove), len(pl.ignore), len(pl.keep))
 		c.Hist(fmt.Sprintf("plan-repack=%v-remove=%v-first=%v-ignore=%v", len(pl.repack) > 0, len(pl.remove) > 0, len(pl.removeFirst) > 0, len(pl.ignore) > 0))
 	}
 	human += fmt.Sprintf(" ops=%d planErr=%v execErr=%v", len(ops), planErr, execErr)
-	term := fmt.Sprintf("C09m.CTrace %s %s %s %s %s", abs0.term(), c09Ns(used), plTerm, coqBool(aborted), coqList(ops))
+	term := fmt.Sprintf("C11m.CTrace %s %s %s %s %s", abs0.term(), c11Ns(used), plTerm, coqBool(aborted), coqList(ops))
 	c.Case("trace-"+kind, len(ops) >= 3, len(ops)+len(abs0.packs), term, human)
 	if execErr != nil && !aborted {
 		// a complete run must succeed on a consistent repository
-		c.Case("trace-"+kind+"-execerr", true, len(ops), fmt.Sprintf("C09m.CCrash %s %s false true true", abs0.term(), c09Ns(used)), human+" EXECUTE FAILED")
+		c.Case("trace-"+kind+"-execerr", true, len(ops), fmt.Sprintf("C11m.CCrash %s %s false true true", abs0.term(), c11Ns(used)), human+" EXECUTE FAILED")
 	}
 	if aborted {
 		c.Hist("aborted")
 		// state must be untouched
-		return c09Sync(s0, h.e.repo)
+		return c11Sync(s0, h.e.repo)
 	}
 	// final state of the complete run
 	final := filepath.Join(h.root, "final")
-	if err := c09Copy(h.e.repo, final); err != nil {
+	if err := c11Copy(h.e.repo, final); err != nil {
 		return err
 	}
 	absF, err := h.state()
@@ -713,7 +714,7 @@ func (h *c09H) runScenario(kind string, o c09Opt, maxPrefixes int) error {
 		return err
 	}
 	ck, rs := h.checkOK(), h.restoreOK()
-	c.Case("complete-"+kind, true, len(ops), fmt.Sprintf("C09m.CCrash %s %s %s %s true", absF.term(), c09Ns(used), coqBool(ck), coqBool(rs)),
+	c.Case("complete-"+kind, true, len(ops), fmt.Sprintf("C11m.CCrash %s %s %s %s true", absF.term(), c11Ns(used), coqBool(ck), coqBool(rs)),
 		human+fmt.Sprintf(" complete: check=%v restore=%v", ck, rs))
 	// crash prefixes
 	n := len(mods)
@@ -741,10 +742,10 @@ func (h *c09H) runScenario(kind string, o c09Opt, maxPrefixes int) error {
 	}
 	for _, k := range ks {
 		t0 := time.Now()
-		if err := c09Sync(s0, h.e.repo); err != nil {
+		if err := c11Sync(s0, h.e.repo); err != nil {
 			return err
 		}
-		c09T["copy"] += time.Since(t0).Seconds()
+		c11T["copy"] += time.Since(t0).Seconds()
 		t0 = time.Now()
 		h.e.rec.Reset()
 		h.e.rec.CutAt = k
@@ -753,27 +754,27 @@ func (h *c09H) runScenario(kind string, o c09Opt, maxPrefixes int) error {
 		cutMods := h.e.rec.Mods()
 		h.e.rec.Reset()
 		h.clearLocks()
-		c09T["prune-cut"] += time.Since(t0).Seconds()
+		c11T["prune-cut"] += time.Since(t0).Seconds()
 		t0 = time.Now()
 		absK, err := h.state()
 		if err != nil {
 			return err
 		}
-		c09T["state"] += time.Since(t0).Seconds()
+		c11T["state"] += time.Since(t0).Seconds()
 		t0 = time.Now()
 		ck := !baseline || h.checkOK()
-		c09T["check"] += time.Since(t0).Seconds()
+		c11T["check"] += time.Since(t0).Seconds()
 		t0 = time.Now()
 		rs := h.restoreOK()
-		c09T["restore"] += time.Since(t0).Seconds()
+		c11T["restore"] += time.Since(t0).Seconds()
 		t0 = time.Now()
 		// re-run to completion on the crashed state
 		_, _, rerr := h.e.cli(append([]string{"prune"}, o.flags()...)...)
 		h.clearLocks()
-		c09T["prune-rerun"] += time.Since(t0).Seconds()
+		c11T["prune-rerun"] += time.Since(t0).Seconds()
 		t0 = time.Now()
 		rr := rerr == nil && h.checkOK() && h.restoreOK()
-		c09T["after-rerun"] += time.Since(t0).Seconds()
+		c11T["after-rerun"] += time.Since(t0).Seconds()
 		last := "-"
 		if len(cutMods) > 0 {
 			last = cutMods[len(cutMods)-1].String()
@@ -783,14 +784,14 @@ func (h *c09H) runScenario(kind string, o c09Opt, maxPrefixes int) error {
 			next = mods[k].String()
 		}
 		c.Hist("crash-before-" + mods[k].Op + "-" + fmt.Sprint(mods[k].Type))
-		c.Case("crash-"+kind, true, k, fmt.Sprintf("C09m.CCrash %s %s %s %s %s", absK.term(), c09Ns(used), coqBool(ck), coqBool(rs), coqBool(rr)),
+		c.Case("crash-"+kind, true, k, fmt.Sprintf("C11m.CCrash %s %s %s %s %s", absK.term(), c11Ns(used), coqBool(ck), coqBool(rs), coqBool(rr)),
 			fmt.Sprintf("%s opts=[%s] cut=%d/%d (last done %s, reference next %s) prune err=%v -> check=%v restore=%v rerun=%v", h.name, o, k, n, last, next, cerr != nil, ck, rs, rr))
 	}
-	return c09Sync(final, h.e.repo)
+	return c11Sync(final, h.e.repo)
 }
 
 // hideIndexes moves the index files not in keep away and returns a function that brings them back.
-func (h *c09H) hideNewIndexes(before map[string]bool) (restore func()) {
+func (h *c11H) hideNewIndexes(before map[string]bool) (restore func()) {
 	dir := filepath.Join(h.e.repo, "index")
 	hid := filepath.Join(h.root, fmt.Sprintf("hidden-%d", h.rng.intn(1<<30)))
 	_ = os.MkdirAll(hid, 0o700)
@@ -812,7 +813,7 @@ func (h *c09H) hideNewIndexes(before map[string]bool) (restore func()) {
 // buildDupMissing: blob h is stored twice, in pack A = {h, y, x} and pack M = {h, u}; the kept
 // snapshot needs h and y; x and u are unused; the file of M is missing. The repository is consistent
 // (h is loadable from A), the index references the missing, unneeded pack M.
-func (h *c09H) buildDupMissing() error {
+func (h *c11H) buildDupMissing() error {
 	fh, fy, fx, fu := h.rng.bytes(30000), h.rng.bytes(20000), h.rng.bytes(25000), h.rng.bytes(15000)
 	before := h.idxFiles()
 	s1, err := h.backupFiles(map[string][]byte{"fh": fh, "fy": fy, "fx": fx})
@@ -867,7 +868,7 @@ func (h *c09H) buildDupMissing() error {
 	return nil
 }
 
-func (h *c09H) build(kind string) error {
+func (h *c11H) build(kind string) error {
 	if _, serr, err := h.e.cli("init"); err != nil {
 		return fmt.Errorf("init: %v %s", err, serr)
 	}
@@ -952,8 +953,8 @@ func (h *c09H) build(kind string) error {
 	return nil
 }
 
-func c09Histories(c *vctx) error {
-	repository.VerifC09SetLockWait(time.Millisecond)
+func c11Histories(c *vctx) error {
+	repository.VerifC11SetLockWait(time.Millisecond)
 	kinds := []string{"plain", "dup", "unindexed", "missing-unneeded", "abort-index", "dup-missing", "plain", "dup"}
 	nh := c.n(3, 40)
 	maxPref := 9
@@ -967,7 +968,7 @@ func c09Histories(c *vctx) error {
 		if !c.thorough() {
 			kind = []string{"dup", "unindexed", "dup-missing"}[i%3]
 		}
-		h := c09NewH(c, fmt.Sprintf("h%d", i), rng)
+		h := c11NewH(c, fmt.Sprintf("h%d", i), rng)
 		if err := h.build(kind); err != nil {
 			return fmt.Errorf("history %d (%s): %v", i, kind, err)
 		}
@@ -978,7 +979,7 @@ func c09Histories(c *vctx) error {
 		if kind == "dup-missing" {
 			oi = 0
 		}
-		o := c09PickOpt(rng, oi)
+		o := c11PickOpt(rng, oi)
 		if err := h.runScenario(kind, o, maxPref); err != nil {
 			return fmt.Errorf("scenario %d (%s): %v", i, kind, err)
 		}
@@ -1002,14 +1003,14 @@ func c09Histories(c *vctx) error {
 			h.e.rec.CutAt = -1
 			h.e.rec.Reset()
 			h.clearLocks()
-			if err := h.runScenario("after-interrupted", c09PickOpt(rng, -1), maxPref); err != nil {
+			if err := h.runScenario("after-interrupted", c11PickOpt(rng, -1), maxPref); err != nil {
 				return fmt.Errorf("chained scenario %d: %v", i, err)
 			}
 		}
 		_ = os.RemoveAll(h.root)
 	}
 	c.Info("histories_seconds", time.Since(start).Seconds())
-	c.Info("crash_step_seconds", c09T)
+	c.Info("crash_step_seconds", c11T)
 	return nil
 }
 
